@@ -10,7 +10,7 @@ MODEL_BIN = os.path.join(LEAN_DIR, ".lake", "build", "bin", "pakhi_model")
 IMPL_BIN = os.path.join(HARNESS_DIR, "target", "release", "impl_driver")
 ENV = dict(os.environ, CARGO_NET_OFFLINE="true")
 
-M_REC_START, M_ENT_START, M_ENT_END, M_REC_END = "", "", "", ""
+M_REC_START, M_ENT_START, M_ENT_END, M_REC_END = "\ue000", "\ue001", "\ue002", "\ue003"
 
 
 # ---------------------------------------------------------------------------------------------
